@@ -92,7 +92,8 @@ fn context_tag(case: &JpegCase) -> &'static str {
     let sp = &case.spec;
     let subsampled = sp.components.iter().any(|c| c.h as usize != sp.hmax() || c.v as usize != sp.vmax());
     let partial = sp.scans.iter().any(|s| s.comps.iter().all(|sc| (sp.components[sc.comp].h as usize) < sp.hmax() || (sp.components[sc.comp].v as usize) < sp.vmax()));
-    if subsampled && partial {
+    // (sequential files only: every AC scan of a progressive file has one component)
+    if subsampled && partial && sp.sof_marker != 0xc2 {
         " [subsampled:scan-of-reduced-components-only]"
     } else {
         ""
@@ -786,11 +787,11 @@ impl Check for C17 {
         Plan { cases: if tier == Tier::Quick { 500 } else { 15_000 }, max_len: 8192 }
     }
     fn rule(&self) -> String {
-        "choice sequence -> JpegSpec (1 or 3 components, 4:4:4 / 4:2:0 / 4:2:2 / 4:4:0, any size incl. non-multiples of the MCU and several groups, 1-3 quantisation tables with 8/16-bit precision in one or several DQT, standard or generated Huffman tables defined up front or redefined per scan, interleaved / per-component / mixed scans, restart intervals, JFIF / APPn / COM / Adobe / ICC (multi-chunk) / Exif / XMP segments, inter-marker bytes, extra ZRL symbols before EOB, padding-bit patterns, trailing bytes; coefficient blocks empty / sparse / dense / long zero runs, DC differences up to +-2047) -> (a) the JPEG file written by jxlref::jpeg from the JPEG standard, (b) the transcoded container file: jbrd box + Exif/xml boxes (raw or brob) + jxlc/jxlp codestream (VarDCT, DCT8, YCbCr, RAW quantisation weights, neutral chroma-from-luma, ICC in the codestream). Positive: JxlImage::read -> status Available and reconstruct_jpeg == (a) byte for byte. Arrival: the file is fed in generated chunks, status queried after every step: never Invalid, never Unavailable-then-Available, never back from Available; whenever Available a reconstruction attempt must not panic, must not fail with an incomplete/not-found error (nor any other error on a valid file) and an Ok result must equal (a); after the last byte the result equals (a). Negative: the jbrd payload is truncated, bit-flipped, or re-serialised from a field-level mutated description (lengths, types, counts, indices, group terminators, marker list, ...), whole and chunked: Err or any reconstruction, never a panic. Non-trivial: >= 2 blocks with non-zero AC coefficients.".into()
+        "choice sequence -> JpegSpec: sequential (SOF0/SOF1, about 60 %) or progressive (SOF2, about 40 %) Huffman JPEG, 1 or 3 components, 4:4:4 / 4:2:0 / 4:2:2 / 4:4:0, any size incl. non-multiples of the MCU, several groups, two LF groups, and (progressive) one-component images of more than 2^14 / 2^15 blocks; 1-3 quantisation tables with 8/16-bit precision in one or several DQT; standard or generated Huffman tables defined up front or redefined per scan; sequential: interleaved / per-component / mixed scans; progressive: generated legal scan scripts (DC first scans interleaved or not with Al 0..2, DC refinement, AC first scans over generated bands with Al 0..3, AC refinement scans over single or merged bands, any legal order, sometimes truncated), end-of-band runs up to 32767 (EOB0..EOB14), runs cut early (reset points: every block, random, periodic), ZRL symbols with pending correction bits, redundant ZRL symbols before the end of band (extra zero runs) in first and refinement scans; restart intervals; JFIF / APPn / COM / Adobe / ICC (multi-chunk) / Exif / XMP segments, inter-marker bytes, padding-bit patterns, trailing bytes; coefficient blocks empty / sparse / dense / long zero runs, DC differences up to +-2047, many small negative odd AC values -> (a) the JPEG file written by jxlref::jpeg from the JPEG standard and read back by an independent reader (discarded unless the coefficients agree), (b) the transcoded container file: jbrd box + Exif/xml boxes (raw or brob) + jxlc/jxlp codestream (VarDCT, DCT8, YCbCr, RAW quantisation weights, neutral or integer chroma-from-luma, ICC in the codestream). Positive: status Available and reconstruct_jpeg == (a) byte for byte. Arrival: the file is fed in generated chunks, status queried after every step: never Invalid, never Unavailable-then-Available, never back from Available; whenever Available a reconstruction attempt must not panic, must not fail with an incomplete/not-found error (nor any other error on a valid file) and an Ok result must equal (a); after the last byte the result equals (a). Negative: the jbrd payload is truncated, bit-flipped, or re-serialised from a field-level mutated description (lengths, types, counts, indices, group terminators, marker list, progressive parameters, ...), boxes removed / doubled, foreign codestream, whole and chunked: Err or any reconstruction, never a panic. Non-trivial: >= 2 blocks with non-zero AC coefficients.".into()
     }
     fn assumptions(&self) -> Vec<String> {
         vec![
-            "scope: baseline (SOF0) and extended (SOF1) sequential Huffman JPEG, 8-bit samples; progressive, arithmetic, lossless, 12-bit, 4-component and RGB (non-YCbCr) JPEGs are not generated".into(),
+            "scope: baseline (SOF0), extended sequential (SOF1) and progressive (SOF2) Huffman JPEG, 8-bit samples; arithmetic, lossless, hierarchical, 12-bit, 4-component and RGB (non-YCbCr) JPEGs are not generated; progressive scan scripts are legal ones (DC first per component, each band refined one bit at a time)".into(),
             "the JPEG writer is independent of the decoder (written from ITU-T T.81); the jbrd field layout follows ISO/IEC 18181-2 as implemented by libjxl (marker byte included in APPn and COM data, sentinel symbol 256 in Huffman codes, padding bits in file order)".into(),
         ]
     }
@@ -812,6 +813,12 @@ impl Check for C17 {
             ("hostile-app-type-reserved".into(), h("21524a87a54baf4373")),
             ("hostile-progressive-ss-gt-se".into(), h("37028e94")),
             ("hostile-huffman-no-sentinel".into(), h("2149a49022866c9e9d3ca12dcf9c349126f6826d310a52b94bc316a0ec61fb6c99")),
+            // progressive files; each fails when the named step of the reconstruction is broken
+            // (checked against hand-made mutants of jxl-jbr/src/reconstruct/scan.rs)
+            ("progressive-refinement-zrl-with-correction-bits".into(), h("6ba01351a5b8a74244d81627d7c8631608b3ffee59c10fdaa56ed7af92c966ba63430db140dc1c8839480bdb7ac51e88b23d23f7298d906479f1be")),
+            ("progressive-refinement-extra-zrl-with-correction-bits".into(), h("a1268b75128d6a4fa39233130f1aa56e809077976bb8447ef0055f9fbeb3db9eee630a53590fccc5fe5af923af435023b3b55d6a06933cbcc2347eb3ff")),
+            ("progressive-negative-ac-point-transform".into(), h("7bc770e032ca53fdd59860485bb50bd9e51ee1d4512f7ebf6ab89c53b23caeb26bdd0d7dab1c89b260dced0083e7d8fb1ea55d98429c9680014a680b449d67")),
+            ("progressive-eob-run-32767-and-reset-points".into(), h("fffc140b60cd844a837b7795c1255e4c6aa5a73e8fedd22cd2793caeece4bea93c6faa50b5c7eec5e357")),
         ]
     }
     fn run(&self, choice: &[u8], describe: bool) -> Outcome {
